@@ -88,10 +88,19 @@ theorem C11_single_level (c : Cfg) (name : Bytes) (hn : plainName name) :
   unfold getoptPath getoptSecidx
   have he : name.isEmpty = false := by cases name <;> simp_all
   simp only [he, Bool.false_eq_true, if_false]
-  have hl : name.length + 1 = (name.length) + 1 := rfl
-  rw [secidxLoop]
-  simp only [he, Bool.false_eq_true, if_false, takeWhile_plain name hs, List.drop_length, List.isEmpty_nil, Bool.not_false, Bool.and_self, if_true]
-  cases hg : getoptLeaf c name <;> split <;> simp [hg]
+  cases hk : keyFirst c name false with
+  | some i =>
+    have : getoptLeaf c name = some i := by
+      unfold keyFirst at hk
+      split at hk
+      · exact hk
+      · cases hk
+    simp [this]
+  | none =>
+    simp only []
+    rw [secidxLoop]
+    simp only [he, Bool.false_eq_true, if_false, takeWhile_plain name hs, List.drop_length, List.isEmpty_nil, Bool.not_false, Bool.and_self, if_true]
+    cases hg : getoptLeaf c name <;> split <;> simp [hg]
 
 /-- **C11 (empty path).** -/
 theorem C11_empty_path (c : Cfg) (w : Bool) : (getoptSecidx c [] w).ref = none := by
